@@ -205,6 +205,7 @@ fn macro_expand(
             segments: segments.clone(),
             macros: context.macros.clone(),
             messages: context.messages.clone(),
+            include_depth: 0,
         };
         parse_iter(&mut iter, &parse_context)?;
     } else {
